@@ -175,6 +175,38 @@ Theorem C21_locked_combine_ordered :
 Proof. exact micro_atomic. Qed.
 Print Assumptions C21_locked_combine_ordered.
 
+(* exit status at statement granularity: the handler stores exit_status and THEN sets
+   status_event, the reader waits for the event and then reads; they share no lock.  For every
+   interleaving of the two (every merge that is enabled, i.e. in which the reader got past its
+   wait) the reader reports the status sent -- this is what justifies the one-step ExitStatus
+   handler of the main model *)
+Theorem C21_exit_status_concurrent :
+  forall (old n : Z) (l : list xact) (s' : xstate),
+    Merge (prog_handler n) prog_reader l -> xrun (xinit old) l = Some s' ->
+    x_result s' = Some n.
+Proof. exact exit_concurrent. Qed.
+Print Assumptions C21_exit_status_concurrent.
+
+(* ... and the order of the two statements is what it rests on: with the event set first there
+   is an enabled interleaving in which the reader reports the stale value *)
+Theorem C21_exit_status_set_first_races :
+  forall old n : Z,
+    exists l s', Merge (prog_handler_swapped n) prog_reader l /\
+                 xrun (xinit old) l = Some s' /\ x_result s' = Some old.
+Proof. exact exit_swapped_races. Qed.
+Print Assumptions C21_exit_status_set_first_races.
+
+(* sender with the window: whatever the window and maximum packet size, sendall's payloads plus
+   the unsent rest are the bytes written, and the window is debited by exactly the bytes put
+   on the wire (no leak: what the receiver credits back after consuming them restores it) *)
+Theorem C21_sender_window :
+  forall (w p : Z) (s : list Z),
+    let r := sendall_win (S (length s)) w p s in
+    concat (fst (fst r)) ++ snd (fst r) = s /\
+    w - snd r = Z.of_nat (length (concat (fst (fst r)))).
+Proof. exact thm_sender_window. Qed.
+Print Assumptions C21_sender_window.
+
 (* ---- non-vacuity: three channels, interleaved traffic, reads, a switch ---------------------- *)
 Definition ex_k : ctl := mkCtl true [1; 2; 7] [1; 2; 7].
 Definition ex_ops : list op :=
@@ -202,3 +234,12 @@ Example C21_example_values :
   OUT 2 (ex_k, fun _ => chan0) ex_ops = [30; 90; 91] /\
   c_exit (final (ex_k, fun _ => chan0) ex_ops 7) = 3.
 Proof. vm_compute. auto. Qed.
+
+Example C21_example_exit_enabled :
+  xrun (xinit (-1)) [XStore 23; XSet; RWait; RRead] = Some (mkX 23 true (Some 23)) /\
+  Merge (prog_handler 23) prog_reader [XStore 23; XSet; RWait; RRead].
+Proof. split; [reflexivity|unfold prog_handler, prog_reader; repeat constructor]. Qed.
+
+Example C21_example_sender_window :
+  sendall_win 11 8 (64 + 3) [1; 2; 3; 4; 5; 6; 7; 8; 9; 10] = ([[1; 2; 3]; [4; 5; 6]; [7; 8]], [9; 10], 0).
+Proof. vm_compute. reflexivity. Qed.
